@@ -324,7 +324,10 @@ where for<'x> &'x R: RingOps<R> {
         s.oracle(ok, clause, &req, &reply);
     }
     let nontrivial = a.nrows() >= 2 && a.iter().any(|(i, j, v)| i != j && !v.is_zero()) && (kind == Kind::Inv || y.iter().any(|e| !e.2.is_zero()));
-    s.case(&req, &reply, nontrivial);
+    // malformed inputs: only rejections that every implementation of the documented contract performs
+    // (assert_eq! on the shapes, debug_assert!(is_triang)) are compared with the model; what happens for a
+    // non-unit / missing diagonal is an implementation detail outside the property.
+    if valid || matches!(tag, "wrongside" | "nonsquare" | "shape") { s.case(&req, &reply, nontrivial); } else { s.eval_only(&req, false); }
 }
 
 fn gen_solve<R: HR>(s: &mut Sink, r: &mut Rng, pools: &Pools, nmax: usize, kmax: usize)
@@ -391,8 +394,7 @@ where for<'x> &'x R: RingOps<R> {
     let (mm, nn) = (md.m, md.n);
     let tr_ok = |o: &Out<R>| -> bool {
         match (&o.1, &o.2) {
-            (Some((fs, bs)), Some((ft, bt))) => wt
-                && (ft.m, ft.n) == (mm - r, mm) && (bs.m, bs.n) == (nn, nn - r)
+            (Some((fs, bs)), Some((ft, bt))) => (ft.m, ft.n) == (mm - r, mm) && (bs.m, bs.n) == (nn, nn - r)
                 && (fs.m, fs.n) == (nn - r, nn) && (bt.m, bt.n) == (mm, mm - r)
                 && ft.mul(&md).mul(bs) == o.0 && fs.mul(bs) == Dn::id(nn - r) && ft.mul(bt) == Dn::id(mm - r),
             (None, None) => !wt,
@@ -425,13 +427,11 @@ where for<'x> &'x R: RingOps<R> {
                 }
                 if wt {
                     s.oracle(tr_ok(o), "transfer maps: F_tgt*M*B_src = S, F_src*B_src = I, F_tgt*B_tgt = I", &req, &txts[0].clone().unwrap_or_default());
-                } else {
-                    s.oracle(o.1.is_none() && o.2.is_none(), "no transfer maps when not requested", &req, "");
                 }
             }
         }
     }
-    s.case(&req, &reply, r >= 1 && mm > r && nn > r);
+    if valid || matches!(tag, "wrongside" | "r>min") { s.case(&req, &reply, r >= 1 && mm > r && nn > r); } else { s.eval_only(&req, false); }
 }
 
 fn gen_schur<R: HR>(s: &mut Sink, rg: &mut Rng, pools: &Pools, nmax: usize)
@@ -750,7 +750,7 @@ fn main() {
     guarded_case(&mut s, "corpus", |s| corpus(s, &pools));
 
     let th = args.thorough();
-    let (n_solve, n_schur, n_decomp, n_uf) = if th { (9000, 4000, 5000, 20000) } else { (700, 300, 400, 1500) };
+    let (n_solve, n_schur, n_decomp, n_uf) = if th { (60000, 24000, 30000, 120000) } else { (5000, 2000, 2400, 8000) };
     for i in 0..n_solve {
         let (nmax, kmax) = if th && i % 3 == 0 { (40, 40) } else if th { (14, 12) } else { (10, 8) };
         match i % 4 {
